@@ -10,11 +10,14 @@ Fixpoint qvalue (fuel : nat) (p : Position) : option Z :=
   match fuel with
   | O => None
   | S f =>
-    fold_left (fun acc m =>
-      match acc, qvalue f (makemove false p m) with
-      | Some a, Some v => Some (Z.max a (- v))
-      | _, _ => None
-      end) (legal_captures p) (Some (eval p))
+    (fix go (ms : list Mv) (acc : Z) : option Z :=
+       match ms with
+       | [] => Some acc
+       | m :: ms' => match qvalue f (makemove false p m) with
+                     | None => None
+                     | Some v => go ms' (Z.max acc (- v))
+                     end
+       end) (legal_captures p) (eval p)
   end.
 
 (* the same value with a node budget, for the correspondence run (None = budget or fuel exhausted) *)
